@@ -3402,7 +3402,13 @@ impl SctpInner {
         }
 
         let (_guard, ssn) = if let Some(dc) = &dc_opt {
-            let guard = dc.send_lock.lock().await;
+            // DCEP messages (unordered, SSN 0) are sent from the run loop: they must not
+            // wait for a sender that holds this lock while parked in flow control.
+            let guard = if is_dcep {
+                None
+            } else {
+                Some(dc.send_lock.lock().await)
+            };
             ordered = if is_dcep { false } else { dc.ordered };
             let ssn = if ordered {
                 dc.next_ssn.fetch_add(1, Ordering::SeqCst)
@@ -3420,7 +3426,7 @@ impl SctpInner {
                     self.has_pr_sctp.store(true, Ordering::Relaxed);
                 }
             }
-            (Some(guard), ssn)
+            (guard, ssn)
         } else {
             // Check if we should error if channel not found or not open
             // Existing logic didn't return early if dc_opt is None?
@@ -3453,7 +3459,12 @@ impl SctpInner {
             }
             let flight = self.flight_size.load(Ordering::Relaxed);
             let queued = self.queued_bytes.load(Ordering::Relaxed);
-            if self.max_buffered_amount == 0 || flight + queued <= self.max_buffered_amount {
+            // A DCEP ACK / OPEN is queued by the run loop itself; if that parked here
+            // no SACK would ever be processed and the credit would never come.
+            if is_dcep
+                || self.max_buffered_amount == 0
+                || flight + queued <= self.max_buffered_amount
+            {
                 break;
             }
             self.flow_control_notify.notified().await;
